@@ -78,6 +78,7 @@ def Disk.apply (d : Disk) : Op → Disk
 def Disk.applyAll (d : Disk) (ops : List Op) : Disk := ops.foldl Disk.apply d
 
 structure Obj where
+  name : Name                           -- the index the object caches (ghost)
   owner : TxId                          -- the transaction whose bucket handle `UpdateBucket` stored last
   items : Item → Option (Val × Nat)     -- cached value, tagged with the version it came from
   readers : Nat
@@ -95,6 +96,7 @@ structure Tx where
   inUse : Nat                           -- reader: number of `With` callbacks in progress
   ops : List Op                         -- writer: the batch so far
   seen : List Item                      -- ids found by the search (back-fill candidates)
+  obs : List (Name × Item × Option Val) -- what every read returned, newest first
   u1 : Bool
   u2 : Bool
   u3 : Bool
@@ -134,10 +136,10 @@ inductive Label
 
 def newTx (s : State) (w : Bool) : Tx :=
   { isWrite := w, snap := s.nver, view := s.latest, isOpen := true, failed := false, endVer := 0,
-    cur := fun _ => none, inUse := 0, ops := [], seen := [], u1 := false, u2 := false, u3 := false }
+    cur := fun _ => none, inUse := 0, ops := [], seen := [], obs := [], u1 := false, u2 := false, u3 := false }
 
-def freshObj (t : TxId) (readers : Nat) (w : Option TxId) (priv : Bool) : Obj :=
-  { owner := t, items := fun _ => none, readers := readers, writer := w, isPrivate := priv }
+def freshObj (n : Name) (t : TxId) (readers : Nat) (w : Option TxId) (priv : Bool) : Obj :=
+  { name := n, owner := t, items := fun _ => none, readers := readers, writer := w, isPrivate := priv }
 
 def setBad (s : State) (b : Bad) : State :=
   { s with bad := match s.bad with | some x => some x | none => some b }
@@ -152,14 +154,23 @@ def stepBeginW (s : State) (t : TxId) : Option State :=
   | none, none => some { s with txs := upd s.txs t (some (newTx s true)), writer := some t }
   | _, _ => none
 
-/-- hand a new object to `t` for name `n`; `inMap`: it becomes the manager's object for `n` -/
-def giveFresh (s : State) (t : TxId) (tx : Tx) (n : Name) (inMap : Bool) : State :=
-  let o := s.nextObj
-  let ob := if tx.isWrite then freshObj t 0 (some t) (!inMap) else freshObj t (if inMap then 1 else 0) none (!inMap)
-  { s with objs := upd s.objs o (some ob), nextObj := o + 1,
-           map := if inMap then upd s.map n (some o) else s.map,
+/-- `t` (record `tx`) starts using object `o` (new content `ob'`) for name `n` -/
+def withAccess (s : State) (t : TxId) (tx : Tx) (n : Name) (o : ObjId) (ob' : Obj) (nx : ObjId)
+    (mp : Name → Option ObjId) : State :=
+  { s with objs := upd s.objs o (some ob'), nextObj := nx, map := mp,
            txs := upd s.txs t (some { tx with cur := upd tx.cur n (some o), inUse := tx.inUse + 1 }),
            users := upd s.users n (t :: s.users n) }
+
+/-- hand a new object to `t` for name `n`; `inMap`: it becomes the manager's object for `n` -/
+def giveFresh (s : State) (t : TxId) (tx : Tx) (n : Name) (inMap : Bool) : State :=
+  withAccess s t tx n s.nextObj
+    (if tx.isWrite then freshObj n t 0 (some t) (!inMap) else freshObj n t (if inMap then 1 else 0) none (!inMap))
+    (s.nextObj + 1) (if inMap then upd s.map n (some s.nextObj) else s.map)
+
+/-- take the manager's object: exclusively (writer) or shared (reader); either way the callback's
+first statement is `UpdateBucket(bucket of t)` -/
+def takeShared (t : TxId) (tx : Tx) (ob : Obj) : Obj :=
+  if tx.isWrite then { ob with owner := t, writer := some t } else { ob with owner := t, readers := ob.readers + 1 }
 
 def stepAccess (s : State) (t : TxId) (n : Name) : Option State :=
   match s.txs t with
@@ -176,19 +187,12 @@ def stepAccess (s : State) (t : TxId) (n : Name) : Option State :=
         | some ob =>
           if tx.isWrite then
             -- `existingCache.mu.Lock()`: blocks while anybody holds the object
-            if ob.readers = 0 ∧ ob.writer = none then
-              some { s with objs := upd s.objs o (some { ob with owner := t, writer := some t }),
-                            txs := upd s.txs t (some { tx with cur := upd tx.cur n (some o), inUse := tx.inUse + 1 }),
-                            users := upd s.users n (t :: s.users n) }
+            if ob.readers = 0 ∧ ob.writer = none then some (withAccess s t tx n o (takeShared t tx ob) s.nextObj s.map)
             else none
           else if ob.writer.isSome then
             -- `TryRLock` fails: private cold object
             some (giveFresh s t tx n false)
-          else
-            -- shared object; the callback's first statement is `UpdateBucket(bucket of t)`
-            some { s with objs := upd s.objs o (some { ob with owner := t, readers := ob.readers + 1 }),
-                          txs := upd s.txs t (some { tx with cur := upd tx.cur n (some o), inUse := tx.inUse + 1 }),
-                          users := upd s.users n (t :: s.users n) }
+          else some (withAccess s t tx n o (takeShared t tx ob) s.nextObj s.map)
 
 /-- a reader's `With` returns (`RUnlock`) -/
 def stepLeave (s : State) (t : TxId) (n : Name) : Option State :=
@@ -208,15 +212,23 @@ def stepLeave (s : State) (t : TxId) (n : Name) : Option State :=
 /-- what the transaction sees for an item it read; `got` is compared with its own view -/
 def observe (s : State) (t : TxId) (tx : Tx) (n : Name) (i : Item) (got : Option Val) : State :=
   let foreign := decide (got ≠ tx.view.idx n i)
-  let tx' := { tx with seen := if got.isSome then i :: tx.seen else tx.seen, u3 := tx.u3 || foreign }
+  let tx' := { tx with seen := if got.isSome then i :: tx.seen else tx.seen, obs := (n, i, got) :: tx.obs,
+                       u3 := tx.u3 || foreign }
   let s' := { s with txs := upd s.txs t (some tx') }
   if foreign then setBad s' .u3 else s'
+
+/-- `ItemCache.read`: what was found in the bucket is put into the cache (a miss is not cached) -/
+def cacheFill (ob : Obj) (i : Item) (r : Option Val) (ver : Nat) : Obj :=
+  match r with
+  | some v => { ob with items := upd ob.items i (some (v, ver)) }
+  | none => ob
 
 def stepRead (s : State) (t : TxId) (n : Name) (i : Item) : Option State :=
   match s.txs t with
   | none => none
   | some tx =>
-    match tx.cur n with
+    if tx.isOpen = false then none   -- reads happen inside a callback, inside the storage transaction
+    else match tx.cur n with
     | none => none
     | some o =>
       match s.objs o with
@@ -232,11 +244,8 @@ def stepRead (s : State) (t : TxId) (n : Name) (i : Item) : Option State :=
               -- the stored bucket handle belongs to a transaction that has ended
               some (setBad { s with txs := upd s.txs t (some { tx with u1 := true }) } .u1)
             else
-              let r := otx.view.idx n i
-              let ob' := match r with
-                | some v => { ob with items := upd ob.items i (some (v, otx.snap)) }
-                | none => ob
-              some (observe { s with objs := upd s.objs o (some ob') } t tx n i r)
+              some (observe { s with objs := upd s.objs o (some (cacheFill ob i (otx.view.idx n i) otx.snap)) } t tx n i
+                (otx.view.idx n i))
 
 def stepWr (s : State) (t : TxId) (op : Op) : Option State :=
   match s.txs t with
